@@ -68,6 +68,7 @@ import rules_build as B
 import rules_run as R
 
 K0 = ("K0",)
+K04 = ("K0", "K4")      # builder-side rules: with and without the async feature
 
 prop("C01",
      [("R1", B.R1, ("K0", "K3"), {}), ("R2", B.R2, ("K0",), {"strict_order": False}),
@@ -96,9 +97,9 @@ prop("C06",
      "the quiescence statement over runs (whenever idle, everything runnable was started)")
 
 prop("C11",
-     [("R3", B.R3, K0, {"parts": ("graph-field",)}), ("W1", B.W1, K0, {}), ("B3", B.B3, K0, {}), ("R2", B.R2, K0, {"strict_order": True}),
-      ("R1", B.R1, K0, {}), ("K", B.C13_rules, K0, {})],
-     K0,
+     [("R3", B.R3, K04, {"parts": ("graph-field",)}), ("W1", B.W1, K04, {}), ("B3", B.B3, K04, {}), ("R2", B.R2, K04, {"strict_order": True}),
+      ("R1", B.R1, K04, {}), ("K", B.C13_rules, K04, {})],
+     K04,
      "Decides B1 (phase order: ranks, then augmentation, then counts and structure copies, all on the same graph which becomes FnGraph.graph), "
      "B2 (no add_node/remove/clear/retain reaches the user's Dag from build()), B3 (the only added edge is Edge::Data, control dependent on "
      "has_path_connecting(G,a,b) == false for the same (a,b): an existing edge is never overwritten), B4 (structure copies complete), B5 = R1/R2.",
@@ -106,8 +107,8 @@ prop("C11",
      "acyclicity of the augmented graph, unreachability of the two expect()s, and that every conflicting pair is joined by a path (semantic invariant of the rank-sorted scan)")
 
 prop("C12",
-     [("D1", B.D1, K0, {}), ("D2", B.D2, K0, {}), ("D3", B.D3, K0, {}), ("D4", B.D4, K0, {})],
-     K0,
+     [("D1", B.D1, K04, {}), ("D2", B.D2, K04, {}), ("D3", B.D3, K04, {}), ("D4", B.D4, K04, {})],
+     K04,
      "Decides D1 (ids listed in ascending id order and sorted by a stable sort whose comparator is ranks[first] vs ranks[second], ascending), "
      "D2 (the Data edge goes from the outer element to an element at a later position of the same sorted list), D3 (no hash-ordered container, "
      "RNG, clock, thread, env or address-derived value reachable from build()), D4 (FnGraph == compares node count, each edge's source, target and "
@@ -116,8 +117,8 @@ prop("C12",
      "non-redundancy of Data edges and the exact tie-break outcome as functions of the input")
 
 prop("C13",
-     [("K", B.C13_rules, K0, {}), ("R3", B.R3, K0, {"parts": ("ranks",)})],
-     K0,
+     [("K", B.C13_rules, K04, {}), ("R3", B.R3, K04, {"parts": ("ranks",)})],
+     K04,
      "Decides K1 (ranks start as Rank(0) x node_count), K2 (the work queue is seeded with exactly the parent-less nodes), K3 (every store to "
      "ranks[child] is ranks[parent]+1 - constant 1 through Rank: Add<usize>, whose body adds the fields - merged by max or guarded by candidate > existing), "
      "K4 (a raised child is re-queued), K5 (the calculation is generic over an unbounded F, never reads an edge weight, and FnGraph.ranks is its "
